@@ -5,7 +5,7 @@
 import glob, json, os, re, shutil, sys
 from verif.core import Check, pmap, run_main, scratch_root, REPO, VERIF
 from verif import projgen as pg, refninja as rn
-from verif.projects import RICH, NOLANG, install_dirs_project
+from verif.projects import RICH, NOLANG, install_dirs_project, install_names_project
 
 DUMP = os.path.join(VERIF, 'tools', 'bin', 'argv_dump')
 
@@ -744,6 +744,7 @@ def main():
     jobs.append(('install', 'rich', RICH))
     jobs.append(('install', 'nolang', NOLANG))
     jobs.append(('install', 'install-dirs', install_dirs_project()))
+    jobs.append(('install', 'install-names', install_names_project()))
     tot = {}
     classes = set()
     for kind, name, v, st in pmap(dispatch, jobs, chunksize=1):
